@@ -198,3 +198,340 @@ Proof. exact font_cached_empty_refuted. Qed.
 Theorem C01_tags_refuted :
   enc_then_dec WString VT_Tags ectx0 ctx0 [VTags [[97]; []; [98; 0; 99]]] = Ok ([VTags [[97]; [98]; [99]]], []).
 Proof. exact tags_refuted. Qed.
+
+(* ==== the remaining wire types (Proofs/BinValuesFacts2.v): Float64, String/BinaryString incl. the unknown-property retyping, UDim2,
+   Rect, Vector3int16, Color3uint8 incl. quantisation of Color3, UniqueId, PhysicalProperties *)
+From RbxVerif Require Import Utf8 BinValuesFacts2.
+
+Theorem C01_col_roundtrip_float64 :
+  forall (c : enc_ctx) (dc : dec_ctx) (xs : list f64) (rest : list N),
+       Forall (fun x : f64 => f64_ok x = true) xs ->
+       exists b : bytes,
+         enc_col WFloat64 c (List.map VFloat64 xs) = Ok b /\
+         dec_col WFloat64 VT_Float64 dc (Datatypes.length xs) (b ++ rest) = Ok (List.map VFloat64 xs, rest).
+Proof. exact col_roundtrip_float64. Qed.
+
+Theorem C01_col_widen_float32_in_float64_column :
+  forall (c : enc_ctx) (dc : dec_ctx) (xs : list f32) (rest : list N),
+       Forall (fun x : f32 => f32_ok x = true) xs ->
+       exists b : bytes,
+         enc_col WFloat64 c (List.map VFloat32 xs) = Ok b /\
+         dec_col WFloat64 VT_Float64 dc (Datatypes.length xs) (b ++ rest) =
+         Ok (List.map (fun x : f32 => VFloat64 (f64_of_f32 x)) xs, rest).
+Proof. exact col_widen_float32_in_float64_column. Qed.
+
+Theorem C01_col_roundtrip_string :
+  forall (c : enc_ctx) (dc : dec_ctx) (ss : list bytes) (rest : list N),
+       Forall (fun s : bytes => bstr_ok (dc_lim dc) s = true /\ utf8_valid s = true) ss ->
+       exists b : bytes,
+         enc_col WString c (List.map VString ss) = Ok b /\
+         dec_col WString VT_Str dc (Datatypes.length ss) (b ++ rest) = Ok (List.map VString ss, rest).
+Proof. exact col_roundtrip_string. Qed.
+
+Theorem C01_col_roundtrip_string_norm :
+  forall (c : enc_ctx) (dc : dec_ctx) (ss : list bytes) (rest : list N),
+       Forall (fun s : bytes => bstr_ok (dc_lim dc) s = true) ss ->
+       exists b : bytes,
+         enc_col WString c (List.map VString ss) = Ok b /\
+         dec_col WString VT_Str dc (Datatypes.length ss) (b ++ rest) =
+         Ok (List.map (fun s : bytes => VString (str_norm s)) ss, rest).
+Proof. exact col_roundtrip_string_norm. Qed.
+
+Theorem C01_col_roundtrip_binarystring :
+  forall (c : enc_ctx) (dc : dec_ctx) (ss : list bytes) (rest : list N),
+       Forall (fun s : bytes => bstr_ok (dc_lim dc) s = true) ss ->
+       exists b : bytes,
+         enc_col WString c (List.map VBinaryString ss) = Ok b /\
+         dec_col WString VT_BinaryString dc (Datatypes.length ss) (b ++ rest) =
+         Ok (List.map VBinaryString ss, rest).
+Proof. exact col_roundtrip_binarystring. Qed.
+
+Theorem C01_col_string_unknown_property :
+  forall (c : enc_ctx) (dc : dec_ctx) (ss : list bytes) (rest : list N),
+       Forall (fun s : bytes => bstr_ok (dc_lim dc) s = true) ss ->
+       exists b : bytes,
+         enc_col WString c (List.map VString ss) = Ok b /\
+         dec_col WString (to_default_rbx_type WString) dc (Datatypes.length ss) (b ++ rest) =
+         Ok (List.map VBinaryString ss, rest).
+Proof. exact col_string_unknown_property. Qed.
+
+Theorem C01_col_binarystring_unknown_property :
+  forall (c : enc_ctx) (dc : dec_ctx) (ss : list bytes) (rest : list N),
+       Forall (fun s : bytes => bstr_ok (dc_lim dc) s = true) ss ->
+       exists b : bytes,
+         enc_col WString c (List.map VBinaryString ss) = Ok b /\
+         dec_col WString (to_default_rbx_type WString) dc (Datatypes.length ss) (b ++ rest) =
+         Ok (List.map VBinaryString ss, rest).
+Proof. exact col_binarystring_unknown_property. Qed.
+
+Theorem C01_col_binarystring_as_string :
+  forall (c : enc_ctx) (dc : dec_ctx) (ss : list bytes) (rest : list N),
+       Forall (fun s : bytes => bstr_ok (dc_lim dc) s = true) ss ->
+       exists b : bytes,
+         enc_col WString c (List.map VBinaryString ss) = Ok b /\
+         dec_col WString VT_Str dc (Datatypes.length ss) (b ++ rest) =
+         Ok (List.map (fun s : bytes => VString (str_norm s)) ss, rest).
+Proof. exact col_binarystring_as_string. Qed.
+
+Theorem C01_col_roundtrip_udim2 :
+  forall (c : enc_ctx) (dc : dec_ctx) (us : list (udim * udim)) (rest : list N),
+       Forall (fun p : udim * udim => udim_ok (fst p) = true /\ udim_ok (snd p) = true) us ->
+       exists b : bytes,
+         enc_col WUDim2 c (List.map (fun p : udim * udim => VUDim2 (fst p) (snd p)) us) = Ok b /\
+         dec_col WUDim2 VT_UDim2 dc (Datatypes.length us) (b ++ rest) =
+         Ok (List.map (fun p : udim * udim => VUDim2 (fst p) (snd p)) us, rest).
+Proof. exact col_roundtrip_udim2. Qed.
+
+Theorem C01_col_roundtrip_rect :
+  forall (c : enc_ctx) (dc : dec_ctx) (rs : list (vec2 * vec2)) (rest : list N),
+       Forall (fun p : vec2 * vec2 => vec2_ok (fst p) = true /\ vec2_ok (snd p) = true) rs ->
+       exists b : bytes,
+         enc_col WRect c (List.map (fun p : vec2 * vec2 => VRect (fst p) (snd p)) rs) = Ok b /\
+         dec_col WRect VT_Rect dc (Datatypes.length rs) (b ++ rest) =
+         Ok (List.map (fun p : vec2 * vec2 => VRect (fst p) (snd p)) rs, rest).
+Proof. exact col_roundtrip_rect. Qed.
+
+Theorem C01_col_roundtrip_vector3int16 :
+  forall (c : enc_ctx) (dc : dec_ctx) (ps : list (Z * Z * Z)) (rest : list N),
+       Forall (fun p : Z * Z * Z => v3i16_ok p = true) ps ->
+       exists b : bytes,
+         enc_col WVector3int16 c
+           (List.map (fun p : Z * Z * Z => VVector3int16 (fst (fst p)) (snd (fst p)) (snd p)) ps) = 
+         Ok b /\
+         dec_col WVector3int16 VT_Vector3int16 dc (Datatypes.length ps) (b ++ rest) =
+         Ok (List.map (fun p : Z * Z * Z => VVector3int16 (fst (fst p)) (snd (fst p)) (snd p)) ps, rest).
+Proof. exact col_roundtrip_vector3int16. Qed.
+
+Theorem C01_col_roundtrip_color3uint8 :
+  forall (c : enc_ctx) (dc : dec_ctx) (cty : N) (cs : list (N * N * N)) (rest : list N),
+       cty = VT_Color3 \/ cty = VT_Color3uint8 ->
+       exists b : bytes,
+         enc_col WColor3uint8 c
+           (List.map (fun p : N * N * N => VColor3uint8 (fst (fst p)) (snd (fst p)) (snd p)) cs) = 
+         Ok b /\
+         dec_col WColor3uint8 cty dc (Datatypes.length cs) (b ++ rest) =
+         Ok (List.map (fun p : N * N * N => VColor3uint8 (fst (fst p)) (snd (fst p)) (snd p)) cs, rest).
+Proof. exact col_roundtrip_color3uint8. Qed.
+
+Theorem C01_col_quantise_color3_color3uint8 :
+  forall (c : enc_ctx) (dc : dec_ctx) (cty : N) (cs : list (f32 * f32 * f32)) (rest : list N),
+       cty = VT_Color3 \/ cty = VT_Color3uint8 ->
+       exists b : bytes,
+         enc_col WColor3uint8 c
+           (List.map (fun p : f32 * f32 * f32 => VColor3 (fst (fst p)) (snd (fst p)) (snd p)) cs) = 
+         Ok b /\
+         dec_col WColor3uint8 cty dc (Datatypes.length cs) (b ++ rest) =
+         Ok
+           (List.map
+              (fun p : f32 * f32 * f32 =>
+               VColor3uint8 (ec_quant c (fst (fst p))) (ec_quant c (snd (fst p))) (ec_quant c (snd p))) cs,
+            rest).
+Proof. exact col_quantise_color3_color3uint8. Qed.
+
+Theorem C01_col_roundtrip_color3uint8_mixed :
+  forall (c : enc_ctx) (dc : dec_ctx) (cty : N) (xs : list c3in) (rest : list N),
+       cty = VT_Color3 \/ cty = VT_Color3uint8 ->
+       exists b : bytes,
+         enc_col WColor3uint8 c (List.map c3_value xs) = Ok b /\
+         dec_col WColor3uint8 cty dc (Datatypes.length xs) (b ++ rest) =
+         Ok (List.map (c3_back (ec_quant c)) xs, rest).
+Proof. exact col_roundtrip_color3uint8_mixed. Qed.
+
+Theorem C01_col_roundtrip_uniqueid :
+  forall (c : enc_ctx) (dc : dec_ctx) (us : list (N * N * Z)) (rest : list N),
+       Forall (fun p : N * N * Z => uid_ok p = true) us ->
+       exists b : bytes,
+         enc_col WUniqueId c
+           (List.map (fun p : N * N * Z => VUniqueId (fst (fst p)) (snd (fst p)) (snd p)) us) = 
+         Ok b /\
+         dec_col WUniqueId VT_UniqueId dc (Datatypes.length us) (b ++ rest) =
+         Ok (List.map (fun p : N * N * Z => VUniqueId (fst (fst p)) (snd (fst p)) (snd p)) us, rest).
+Proof. exact col_roundtrip_uniqueid. Qed.
+
+Theorem C01_col_roundtrip_physicalproperties :
+  forall (c : enc_ctx) (dc : dec_ctx) (os : list (option physprops)) (rest : list N),
+       Forall (fun o : option physprops => physopt_ok o = true) os ->
+       exists b : bytes,
+         enc_col WPhysicalProperties c (List.map VPhysicalProperties os) = Ok b /\
+         dec_col WPhysicalProperties VT_PhysicalProperties dc (Datatypes.length os) (b ++ rest) =
+         Ok (List.map VPhysicalProperties os, rest).
+Proof. exact col_roundtrip_physicalproperties. Qed.
+
+(* ==== CFrame / OptionalCFrame (rotation normalisation norm_rot), NumberSequence, ColorSequence, SharedString, Font, Content
+   (Proofs/BinValuesFacts3.v) *)
+From RbxVerif Require Import Attr RotationFacts BinValuesFacts3.
+
+Theorem C01_norm_rot_no_id : forall m, to_basic_rotation_id m = None -> norm_rot m = m.
+Proof. exact norm_rot_no_id. Qed.
+Theorem C01_norm_rot_id : forall m id, to_basic_rotation_id m = Some id -> from_basic_rotation_id id = Some (norm_rot m).
+Proof. exact norm_rot_id. Qed.
+Theorem C01_norm_rot_idempotent : forall m, norm_rot (norm_rot m) = norm_rot m.
+Proof. exact norm_rot_idempotent. Qed.
+Theorem C01_norm_rot_near : forall m, norm_rot m = m \/ near_mat m (norm_rot m).
+Proof. exact norm_rot_near. Qed.
+
+Theorem C01_col_roundtrip_cframe : forall c dc cfs rest,
+  Forall (fun cf => cframe_ok cf = true) cfs ->
+  exists b, enc_col WCFrame c (List.map VCFrame cfs) = Ok b /\
+            dec_col WCFrame VT_CFrame dc (length cfs) (b ++ rest)
+            = Ok (List.map (fun cf => VCFrame (mkCF (cf_pos cf) (norm_rot (cf_rot cf)))) cfs, rest).
+Proof. exact col_roundtrip_cframe. Qed.
+
+Theorem C01_col_roundtrip_optionalcframe : forall c dc os rest,
+  Forall (fun o => ocf_ok o = true) os ->
+  exists b, enc_col WOptionalCFrame c (List.map VOptionalCFrame os) = Ok b /\
+            dec_col WOptionalCFrame VT_OptionalCFrame dc (length os) (b ++ rest)
+            = Ok (List.map (fun o => VOptionalCFrame (option_map (fun cf => mkCF (cf_pos cf) (norm_rot (cf_rot cf))) o)) os,
+                  rest).
+Proof. exact col_roundtrip_optionalcframe. Qed.
+
+Theorem C01_col_roundtrip_numbersequence : forall c dc ks rest,
+  Forall (fun kps => nseq_ok (dc_lim dc) kps = true) ks ->
+  exists b, enc_col WNumberSequence c (List.map VNumberSequence ks) = Ok b /\
+            dec_col WNumberSequence VT_NumberSequence dc (length ks) (b ++ rest)
+            = Ok (List.map VNumberSequence ks, rest).
+Proof. exact col_roundtrip_numbersequence. Qed.
+
+Theorem C01_col_roundtrip_colorsequence : forall c dc ks rest,
+  Forall (fun kps => cseq_ok (dc_lim dc) kps = true) ks ->
+  exists b, enc_col WColorSequence c (List.map VColorSequence ks) = Ok b /\
+            dec_col WColorSequence VT_ColorSequence dc (length ks) (b ++ rest)
+            = Ok (List.map VColorSequence ks, rest).
+Proof. exact col_roundtrip_colorsequence. Qed.
+
+Theorem C01_col_roundtrip_sharedstring : forall c dc ss rest,
+  Forall (fun s => sstr_ok c dc s = true) ss ->
+  exists b, enc_col WSharedString c (List.map VSharedString ss) = Ok b /\
+            dec_col WSharedString VT_SharedString dc (length ss) (b ++ rest)
+            = Ok (List.map (fun s => VSharedString (sstr_back c dc s)) ss, rest).
+Proof. exact col_roundtrip_sharedstring. Qed.
+
+Theorem C01_col_roundtrip_sharedstring_same : forall c dc ss rest,
+  Forall (fun s => sstr_ok c dc s = true) ss ->
+  (forall s id, ec_sstr c s = Some id -> id < N.of_nat (length (dc_sstr dc)) -> nth (N.to_nat id) (dc_sstr dc) [] = s) ->
+  exists b, enc_col WSharedString c (List.map VSharedString ss) = Ok b /\
+            dec_col WSharedString VT_SharedString dc (length ss) (b ++ rest) = Ok (List.map VSharedString ss, rest).
+Proof. exact col_roundtrip_sharedstring_same. Qed.
+
+Theorem C01_col_sharedstring_uncollected_panics : forall c ss1 ss2 s,
+  Forall (fun s => ec_sstr c s <> None) ss1 -> ec_sstr c s = None ->
+  enc_col WSharedString c (List.map VSharedString (ss1 ++ s :: ss2)) = Panic.
+Proof. exact col_sharedstring_uncollected_panics. Qed.
+
+Theorem C01_col_roundtrip_font : forall c dc fs rest,
+  Forall (fun f => font_ok (dc_lim dc) f = true) fs ->
+  exists b, enc_col WFont c (List.map VFont fs) = Ok b /\
+            dec_col WFont VT_Font dc (length fs) (b ++ rest)
+            = Ok (List.map (fun f => VFont (mkFont (fo_family f) (fo_weight f) (fo_style f)
+                                                   (match fo_cached f with Some [] => None | o => o end))) fs, rest).
+Proof. exact col_roundtrip_font. Qed.
+
+Theorem C01_col_roundtrip_content : forall c dc cs rest,
+  N.of_nat (length cs) < 2 ^ 32 ->
+  lim_ok (dc_lim dc) (24 * N.of_nat (length (content_uris cs))) = true ->
+  lim_ok (dc_lim dc) (4 * N.of_nat (length (content_objects c cs))) = true ->
+  Forall (fun x => content_ok c dc x = true) cs ->
+  exists b, enc_col WContent c (List.map VContent cs) = Ok b /\
+            dec_col WContent VT_Content dc (length cs) (b ++ rest)
+            = Ok (List.map (fun x => VContent (content_back c dc x)) cs, []).
+Proof. exact col_roundtrip_content. Qed.
+
+(* ==== framing transparency (Proofs/BinFraming.v): the byte-level chunk loop of Deserializer::deserialize on a framed file equals
+   the loop over the de-framed chunk list, for CompressionType::None and for any compressor under the inflate law; the fuel
+   decode_file supplies suffices; so decode_file of what encode_file writes is decode_chunks of what encode_chunks produced *)
+From RbxVerif Require Import BinFraming.
+
+Theorem C01_chunk_loop_framed :
+  forall (d : db) (p : dec_params) (cmp : compression),
+       dp_lim p = None ->
+       forall cs : list (bytes * bytes),
+       Forall (chunk_rt p cmp) cs ->
+       forall (fuel : nat) (st : dstate) (extra : list N),
+       (Datatypes.length cs < fuel)%nat ->
+       chunk_loop fuel d p st (flat_map (frame_chunk cmp) cs ++ END_CHUNK ++ extra) =
+       chunk_list_loop d p st (cs ++ [(CH_END, FILE_FOOTER)]).
+Proof. exact chunk_loop_framed. Qed.
+
+Theorem C01_chunk_loop_framed_none :
+  forall (d : db) (p : dec_params) (cs : list (list N * list N)) (fuel : nat) (st : dstate),
+       dp_lim p = None ->
+       Forall
+         (fun c : list N * list N =>
+          Datatypes.length (fst c) = 4%nat /\ N.of_nat (Datatypes.length (snd c)) < 2 ^ 32) cs ->
+       (Datatypes.length cs < fuel)%nat ->
+       chunk_loop fuel d p st (flat_map (frame_chunk None) cs ++ END_CHUNK) =
+       chunk_list_loop d p st (cs ++ [(CH_END, FILE_FOOTER)]).
+Proof. exact chunk_loop_framed_none. Qed.
+
+Theorem C01_chunk_loop_framed_compressed :
+  forall (d : db) (p : dec_params) (f : list N -> list N) (cs : list (list N * list N)) 
+         (fuel : nat) (st : dstate),
+       dp_lim p = None ->
+       Forall
+         (fun c : list N * list N =>
+          Datatypes.length (fst c) = 4%nat /\
+          N.of_nat (Datatypes.length (snd c)) < 2 ^ 32 /\
+          N.of_nat (Datatypes.length (f (snd c))) < 2 ^ 32 /\
+          f (snd c) <> [] /\ dp_inflate p (f (snd c)) (N.of_nat (Datatypes.length (snd c))) = Some (snd c))
+         cs ->
+       (Datatypes.length cs < fuel)%nat ->
+       chunk_loop fuel d p st (flat_map (frame_chunk (Some f)) cs ++ END_CHUNK) =
+       chunk_list_loop d p st (cs ++ [(CH_END, FILE_FOOTER)]).
+Proof. exact chunk_loop_framed_compressed. Qed.
+
+Theorem C01_chunk_loop_framed_filefuel :
+  forall (d : db) (p : dec_params) (cmp : compression),
+       dp_lim p = None ->
+       forall cs : list (bytes * bytes),
+       Forall (chunk_rt p cmp) cs ->
+       forall st : dstate,
+       let rest := flat_map (frame_chunk cmp) cs ++ END_CHUNK in
+       chunk_loop (S (Datatypes.length rest)) d p st rest =
+       chunk_list_loop d p st (cs ++ [(CH_END, FILE_FOOTER)]).
+Proof. exact chunk_loop_framed_filefuel. Qed.
+
+Theorem C01_decode_file_framed :
+  forall (d : db) (p : dec_params) (cmp : compression) (nt ni : N) (cs : list (bytes * bytes)),
+       dp_lim p = None ->
+       nt < 2 ^ 32 ->
+       ni < 2 ^ 32 ->
+       Forall (chunk_rt p cmp) cs ->
+       decode_file d p (file_header nt ni ++ flat_map (frame_chunk cmp) cs ++ END_CHUNK) =
+       decode_chunks d p (file_header nt ni) (cs ++ [(CH_END, FILE_FOOTER)]).
+Proof. exact decode_file_framed. Qed.
+
+Theorem C01_encode_chunks_shape :
+  forall (d : db) (ep : enc_params) (dom : cdom) (roots : list N) (e : encoded),
+       encode_chunks d ep dom roots = Ok e ->
+       (exists nt ni : N, nt < 2 ^ 32 /\ ni < 2 ^ 32 /\ en_header e = file_header nt ni) /\
+       Forall (fun c : bytes * bytes => In (fst c) enc_names) (en_chunks e).
+Proof. exact encode_chunks_shape. Qed.
+
+Theorem C01_decode_file_of_encode_chunks :
+  forall (d : db) (ep : enc_params) (dom : cdom) (roots : list N) (e : encoded) 
+         (p : dec_params) (cmp : compression),
+       encode_chunks d ep dom roots = Ok e ->
+       dp_lim p = None ->
+       Forall
+         (fun c : bytes * bytes =>
+          sizes_ok cmp (snd c) /\
+          match cmp with
+          | Some f => dp_inflate p (f (snd c)) (N.of_nat (Datatypes.length (snd c))) = Some (snd c)
+          | None => True
+          end) (en_chunks e) ->
+       decode_file d p (en_header e ++ flat_map (frame_chunk cmp) (en_chunks e) ++ END_CHUNK) =
+       decode_chunks d p (en_header e) (en_chunks e ++ [(CH_END, FILE_FOOTER)]).
+Proof. exact decode_file_of_encode_chunks. Qed.
+
+Theorem C01_decode_file_of_encode_file :
+  forall (d : db) (ep : enc_params) (dom : cdom) (roots : list N) (f : bytes) (p : dec_params),
+       encode_file d ep None dom roots = Ok f ->
+       dp_lim p = None ->
+       (forall e : encoded,
+        encode_chunks d ep dom roots = Ok e ->
+        Forall (fun c : bytes * list N => N.of_nat (Datatypes.length (snd c)) < 2 ^ 32) (en_chunks e)) ->
+       exists e : encoded,
+         encode_chunks d ep dom roots = Ok e /\
+         decode_file d p f = decode_chunks d p (en_header e) (en_chunks e ++ [(CH_END, FILE_FOOTER)]).
+Proof. exact decode_file_of_encode_file. Qed.
+
